@@ -121,7 +121,11 @@ Print Assumptions hash_image.
    (b_eq cs q = Base ((q + 2) mod 4) there). *)
 Theorem layout :
   forall cs m, let c := 2 ^ N.of_nat m in
-  vertex1 cs m c c = b_north Base cs /  vertex1 cs m 0 0 = b_south Base cs /\ vertex1 cs m (2 * c) 0 = b_south Base cs /  vertex1 cs m 0 (2 * c) = b_south Base cs /\ vertex1 cs m (2 * c) (2 * c) = b_south Base cs /  vertex1 cs m (2 * c) c = b_eq Base cs 0 /\ vertex1 cs m c 0 = b_eq Base cs 1 /  vertex1 cs m 0 c = b_eq Base cs 2 /\ vertex1 cs m c (2 * c) = b_eq Base cs 3.
+  vertex1 cs m c c = b_north Base cs /\
+  vertex1 cs m 0 0 = b_south Base cs /\ vertex1 cs m (2 * c) 0 = b_south Base cs /\
+  vertex1 cs m 0 (2 * c) = b_south Base cs /\ vertex1 cs m (2 * c) (2 * c) = b_south Base cs /\
+  vertex1 cs m (2 * c) c = b_eq Base cs 0 /\ vertex1 cs m c 0 = b_eq Base cs 1 /\
+  vertex1 cs m 0 c = b_eq Base cs 2 /\ vertex1 cs m c (2 * c) = b_eq Base cs 3.
 Proof. exact layout_all_depths. Qed.
 Print Assumptions layout.
 
